@@ -20,7 +20,7 @@ import peg
 import mirutil as MU
 import sx
 from sx import C, S
-from common import Reporter
+from common import Reporter, loc_of
 
 SPEC = os.path.join(F.VERIF, "spec", "operators.json")
 I64 = (64, True)
@@ -81,6 +81,7 @@ def run(tier):
     literals(P, g, spec, rep)
     evaluator(P, spec, rep)
     identifier_rule(P, rep)
+    evaluation_consumers(P, rep, "C05.errors|consumer")
     return rep
 
 
@@ -223,6 +224,7 @@ def literals(P, g, spec, rep):
             okc = False
         rep.ob(key + "|digits", okc, "digits of %r literals are [%s]+" % (want["prefix"], want["digits"]) if okc else
                "digit class of %r literals is %s (min repeat %s), expected [%s]+" % (want["prefix"], sorted(got) if got else None, f["class"][1] if f["class"] else None, want["digits"]))
+    number_literal_types(P, len(spec["literals"]), rep, "C05.lit|checked-i64")
     # order: every prefixed alternative precedes the decimal one
     dec = [j for j, f in enumerate(found) if f["prefix"] == ""]
     if dec:
@@ -232,9 +234,79 @@ def literals(P, g, spec, rep):
     char_literal(P, g, rep, "C05.lit|char")
 
 
+EVAL = re.compile(r"^expr::Expr::(run|get_byte|get_bit_index|get_words|get_double_words|get_quad_words)$|GetData>::get_\w+$|^instruction::InstructionOps::get_\w+$|^directive::Operand::get_\w+$")
+
+
+def evaluation_consumers(P, rep, prefix):
+    """an expression that cannot be evaluated (division by zero, overflow, unknown name, value out of range) fails whatever asked for its
+    value: every call of the evaluator and of the conversions built on it has its Err inspected (`?` or a match) and the Err side leads to
+    an Err of the caller — never to a default value (`unwrap_or`, `.ok()`, `if let Ok`) with which assembling goes on"""
+    n = 0
+    for k in sorted(P.body):
+        if k.startswith("bin::") or "#promoted" in k:
+            continue
+        b = P.body[k]
+        for bb, t, name, tg in P.call_sites(k):
+            hit = [x for x in tg if EVAL.search(x)]
+            if not hit or b["blocks"][bb]["cleanup"]:
+                continue
+            n += 1
+            r = MU.result_edges(b, bb)
+            what = hit[0].split("::")[-1]
+            if r is None:
+                # returned as it is (tail call) is fine: the caller's caller decides
+                dest = t["dest"]["local"]
+                tail = dest == 0 or any(st["k"] == "assign" and st["place"]["local"] == 0 and not st["place"]["proj"] and st["rv"]["k"] == "use" and
+                                        (MU.op_place(st["rv"]["op"]) or {}).get("local") == dest for bl in b["blocks"] for st in bl["stmts"])
+                rep.ob("%s|%s|%s" % (prefix, k, what), tail,
+                       "%s returns the result of %s unchanged" % (k.split("::")[-1], what) if tail else
+                       "%s does not inspect the result of %s with `?` or a match (it is defaulted or dropped): an expression that cannot be evaluated does not fail there, assembling goes on with a made-up value" % (k, what),
+                       loc=loc_of(b["blocks"][bb]["tspan"]))
+                continue
+            if r["how"] == "?":
+                rep.ob("%s|%s|%s" % (prefix, k, what), True, "%s propagates a failed %s with `?`" % (k.split("::")[-1], what), nontrivial=False)
+                continue
+            err = r.get("err")
+            okb = r.get("ok")
+            region = G.reach_blocks(b, err) if err is not None else set()
+            builds_err = any(st["k"] == "assign" and st["rv"]["k"] == "agg" and st["rv"]["kind"].get("vname") == "Err" for x in region for st in b["blocks"][x]["stmts"]) or \
+                any(b["blocks"][x]["term"]["k"] == "call" and "FromResidual" in MU.callee_names(b["blocks"][x]["term"])[1] for x in region)
+            rejoins = okb is not None and okb in region
+            good = err is not None and builds_err and not rejoins
+            rep.ob("%s|%s|%s" % (prefix, k, what), good,
+                   "in %s a failed %s ends in an error of its own" % (k.split("::")[-1], what) if good else
+                   "in %s the failure side of %s %s: an expression that cannot be evaluated does not fail the build there" % (
+                       k, what, "continues with the success side" if rejoins else "builds no error"),
+                   loc=loc_of(b["blocks"][bb]["tspan"]))
+    rep.floor("consumers of expression evaluation", n, 60)
+
+
 def identifier_rule(P, rep):
     import rules_C10
     rules_C10.bound_identifier_errors(P, rep, "C05.eval|identifier|no-other-error")
+
+
+def number_literal_types(P, nforms, rep, key):
+    # every conversion from digits to the value is the checked i64 one (a wider or unsigned type followed by a cast would wrap values
+    # beyond i64 into range instead of rejecting them), and the actions contain no integer cast at all
+    convs = []
+    casts = []
+    for k in sorted(P.body):
+        if not k.startswith("document::document::__parse_e_const::{closure"):
+            continue
+        b_ = P.body[k]
+        for bb, t, n_, tg in P.call_sites(k):
+            full, rp = MU.callee_names(t)
+            if "from_str_radix" in rp or re.search(r"<impl str>::parse(::<.*>)?$", full) or "FromStr>::from_str" in rp:
+                convs.append(full)
+        for bl in b_["blocks"]:
+            for st in bl["stmts"]:
+                if st["k"] == "assign" and st["rv"]["k"] == "cast" and st["rv"]["kind"].startswith("IntToInt"):
+                    casts.append("%s: as %s" % (k.rsplit("::", 1)[-1], P.tys(k, st["rv"]["ty"])))
+    okt = len(convs) >= nforms and all(re.search(r"<impl i64>::from_str_radix$|<impl str>::parse::<i64>$", c) for c in convs) and not casts
+    rep.ob(key, okt, "all %d number forms are converted with the checked i64 conversion (a value beyond 64 bits signed is a syntax error, never wrapped)" % len(convs) if okt else
+           "a number form is not converted by the checked i64 conversion (%s%s): values beyond the signed 64-bit range wrap into range instead of being rejected" % (
+               [c for c in convs if not re.search(r"<impl i64>::from_str_radix$|<impl str>::parse::<i64>$", c)][:2], (" casts: %s" % casts[:2]) if casts else ""))
 
 
 def char_literal(P, g, rep, key):
